@@ -100,6 +100,10 @@ def run_check(modname: str, tier: str, seed: int, replay_path: str | None = None
         ctx['tier'] = doc.get('tier', tier)
         _init_worker(modname, ctx)
         r = pm.replay(case, ctx)
+        if r.events and hasattr(pm, 'post'):
+            for item in pm.post(r.events, ctx['tier'], ctx['seed'], ctx):
+                if not isinstance(item, dict):
+                    r.mismatches.extend(item[1].mismatches)
         for m in r.mismatches:
             print('MISMATCH', json.dumps(m, default=str))
         if r.mismatches:
@@ -151,6 +155,8 @@ def run_check(modname: str, tier: str, seed: int, replay_path: str | None = None
             tlc_runs.append({'module': spec['module'], 'cfg': spec['cfg'], 'simulate': spec.get('simulate'), 'states_generated': run.states,
                              'distinct_states': run.distinct, 'cut_after_max_cases': run.cut, 'cmd': ' '.join(run.cmd[-8:])})
         drain(0)
+        if os.environ.get('VERIF_DEBUG'):
+            print(f'[debug] models + replay done at {time.time() - t0:.1f}s', file=sys.stderr)
         extra_info = {}
         if hasattr(pm, 'post') and col.events:
             for item in pm.post(col.events, tier, seed, ctx):
@@ -159,6 +165,8 @@ def run_check(modname: str, tier: str, seed: int, replay_path: str | None = None
                 else:
                     payload, r = item
                     col.add(payload, r)
+        if os.environ.get('VERIF_DEBUG'):
+            print(f'[debug] post done at {time.time() - t0:.1f}s', file=sys.stderr)
         if hasattr(pm, 'extra'):
             for item in pm.extra(tier, seed, ctx, pool):
                 if isinstance(item, dict):
